@@ -4,6 +4,7 @@
 -/
 import BartiqProofs.CompileSpec
 import BartiqModel.Sound
+import BartiqModel.Functions
 namespace Bartiq
 
 theorem Except.bind_error {ε α β : Type} {x : Except ε α} {f : α → Except ε β} {e : ε}
@@ -395,6 +396,39 @@ theorem compileChildren_no_internal (C : Comparator) : ∀ (ch : List Routine) (
       exact get?_portSizes_of_mem cc.ports st.1 ⟨q, hq1, by rw [hq2, hp]⟩ hnone
     rcases Except.bind_error h with h | ⟨⟨pm', ccs⟩, _, h⟩
     · exact compileChildren_no_internal C ks conns path _ e hs.2 (fun c hc n hn k' hk' => hw c hc n hn k' (by simp [hk'])) h
+    · simp [pure, Except.pure] at h
+end
+
+/-! ### evaluation -/
+
+mutual
+/-- **`evaluate` fails only with bartiq's own error class**: a violated constraint or a guarded iterator clash, at any node of the hierarchy -/
+theorem evaluateInternal_no_internal (C : Comparator) (σ : Dict Expr) (fn : Expr → Expr) : ∀ (c : CRoutine) (path : String) (e : Err),
+    evaluateInternal C σ fn path c = .error e → e.isInternal = false
+  | ⟨name, ty, ips, ps, rs, cs, rep, cons, ch, ord⟩, path, e, h => by
+    simp only [evaluateInternal] at h
+    rcases Except.bind_error h with h | ⟨nc, _, h⟩
+    · exact evaluateConstraints_error h
+    rcases Except.bind_error h with h | ⟨rp, _, h⟩
+    · cases rep with
+      | none => simp [pure, Except.pure] at h
+      | some r0 =>
+        simp only at h
+        rcases Except.bind_error h with h | ⟨r1, _, h⟩
+        · exact substituteSymbols_error h
+        · simp [pure, Except.pure] at h
+    rcases Except.bind_error h with h | ⟨ch', _, h⟩
+    · exact evaluateInternalList_no_internal C σ fn ch path e h
+    · simp [pure, Except.pure] at h
+theorem evaluateInternalList_no_internal (C : Comparator) (σ : Dict Expr) (fn : Expr → Expr) : ∀ (cs : List CRoutine) (path : String) (e : Err),
+    evaluateInternalList C σ fn path cs = .error e → e.isInternal = false
+  | [], _, e, h => by simp [evaluateInternalList, pure, Except.pure] at h
+  | c :: cs, path, e, h => by
+    simp only [evaluateInternalList] at h
+    rcases Except.bind_error h with h | ⟨c', _, h⟩
+    · exact evaluateInternal_no_internal C σ fn c _ e h
+    rcases Except.bind_error h with h | ⟨cs', _, h⟩
+    · exact evaluateInternalList_no_internal C σ fn cs path e h
     · simp [pure, Except.pure] at h
 end
 
